@@ -181,7 +181,7 @@ func VerifC05XRatCompare(k0 int, d0 int, k1 int, d1 int, n1 int) {
 	y, qy := zzC05XRatOperand("y", k1, int64(n1), zzC05XDen(d1))
 	isRat := func(k int) bool { return k == 2 || k == 4 }
 	isBig := func(k int, q zzC05Q) bool { return k == 1 || (k == 3 && !zzC05Fits(q.n)) }
-	vrt.Carve("C05-bignum-with-ratio-goes-float", (isRat(k0) && isBig(k1, qy)) || (isRat(k1) && isBig(k0, qx)))
+	vrt.Carve("C05-bignum-ratio-compare-goes-float", (isRat(k0) && isBig(k1, qy)) || (isRat(k1) && isBig(k0, qx)))
 	c := zzC05QCmp(qx, qy)
 	want := []bool{c < 0, c <= 0, c > 0, c >= 0, c == 0, c != 0}
 	got := make([]bool, 6)
